@@ -40,11 +40,11 @@ theorem detach_translated {s : St} (h : Sane s) (v c m : Nat) :
   cases hloc : s.vars v with
   | empty =>
     by_cases hc : 0 < c <;>
-    simp [desc, hloc, dRef, dLen, dStr, newData, memCopy, rdRange, memOf, storeChar, setLen, setRef, setCap, updBlk,
+    simp [desc, hloc, dRef, dLen, dStr, newData, charsOf, setStr, memCopy, rdRange, memOf, storeChar, setLen, setRef, setCap, updBlk,
       capRule, Generated.capMask, allocSet, setEmpty, release, setVar, setData, upd_upd_same, hc, Option.bind_assoc]
   | foreign r off len => 
     by_cases hc : len < c <;>
-    simp [desc, hloc, dRef, dLen, dStr, newData, memCopy, rdRange, memOf, storeChar, setLen, setRef, setCap, updBlk,
+    simp [desc, hloc, dRef, dLen, dStr, newData, charsOf, setStr, memCopy, rdRange, memOf, storeChar, setLen, setRef, setCap, updBlk,
       capRule, Generated.capMask, allocSet, setEmpty, release, setVar, setData, upd_upd_same, hc, Option.bind_assoc]
   | blk b =>
     cases hb : s.heap b with
@@ -56,19 +56,19 @@ theorem detach_translated {s : St} (h : Sane s) (v c m : Nat) :
         · simp [desc, hloc, hb, dRef, dCap, dStr, r1, hm, memOf, setLen, updBlk, storeChar, writeOwn, expose,
             Option.bind_assoc, upd_upd_same]
         · by_cases hc : blk.len < c <;>
-          simp [desc, hloc, hb, dRef, dCap, dLen, dStr, r1, hm, newData, memCopy, rdRange, memOf, storeChar, setLen, setRef, setCap, updBlk,
+          simp [desc, hloc, hb, dRef, dCap, dLen, dStr, r1, hm, newData, charsOf, setStr, memCopy, rdRange, memOf, storeChar, setLen, setRef, setCap, updBlk,
             capRule, Generated.capMask, allocSet, setEmpty, release, setVar, setData, upd_upd_same, hc, Option.bind_assoc,
             hne, atomicDec, deleteData, upd_comm s.heap b s.next _ _ hne]
       · have cm := fun x y => upd_comm s.heap b s.next x y hne
         by_cases r0 : blk.ref = 0
         · have hz : s.heap b = some { bytes := blk.bytes, len := blk.len, cap := blk.cap, ref := 0 } := by rw [hb, ← r0]
           by_cases hc : blk.len < c <;>
-          simp [desc, hloc, hb, dRef, dCap, dLen, dStr, r1, r0, newData, memCopy, rdRange, memOf, storeChar, setLen, setRef, setCap, updBlk,
+          simp [desc, hloc, hb, dRef, dCap, dLen, dStr, r1, r0, newData, charsOf, setStr, memCopy, rdRange, memOf, storeChar, setLen, setRef, setCap, updBlk,
             capRule, Generated.capMask, allocSet, setEmpty, release, setVar, setData, upd_upd_same, hc, Option.bind_assoc,
             hne, upd_self _ _ _ hz]
         · have hz : blk.ref - 1 ≠ 0 := by omega
           by_cases hc : blk.len < c <;>
-          simp [desc, hloc, hb, dRef, dCap, dLen, dStr, r1, r0, newData, memCopy, rdRange, memOf, storeChar, setLen, setRef, setCap, updBlk,
+          simp [desc, hloc, hb, dRef, dCap, dLen, dStr, r1, r0, newData, charsOf, setStr, memCopy, rdRange, memOf, storeChar, setLen, setRef, setCap, updBlk,
             capRule, Generated.capMask, allocSet, setEmpty, release, setVar, setData, upd_upd_same, hc, Option.bind_assoc,
             hne, atomicDec, deleteData, cm, hz]
 
@@ -161,10 +161,10 @@ theorem ctorCopy_translated {s : St} (h : Sane s) (v w : Nat) (hv : s.vars v = .
     have e' := upd_other s.vars v w (Loc.blk s.next) e
     simp only [desc, hloc, rdRange, memOf, Option.bind_eq_bind, Option.bind_some]
     cases hs : rdList (List.map some (s.regs r)) off len with
-    | none => simp [dRef, dLen, dStr, newData, memCopy, rdRange, memOf, hs, setData, hloc, e']
+    | none => simp [dRef, dLen, dStr, newData, charsOf, setStr, memCopy, rdRange, memOf, hs, setData, hloc, e']
     | some src =>
       have hl := rdList_length hs
-      simp [dRef, dLen, dStr, newData, memCopy, rdRange, memOf, hs, setData, ctorPtr, mkBlock, wr_append_one, hl,
+      simp [dRef, dLen, dStr, newData, charsOf, setStr, memCopy, rdRange, memOf, hs, setData, ctorPtr, mkBlock, wr_append_one, hl,
         storeChar, setLen, setRef, setCap, updBlk, ctorRule, Generated.ctorMask, allocSet, setEmpty, release, hv, setVar,
         upd_upd_same, Option.bind_assoc, hloc, e']
   | blk b =>
@@ -175,6 +175,7 @@ theorem ctorCopy_translated {s : St} (h : Sane s) (v w : Nat) (hv : s.vars v = .
       have r0 := h.pos b blk hb
       simp [desc, hloc, hb, dRef, r0, setData, atomicInc, updBlk, share, release, hv, setVar, upd_other _ _ _ _ e]
 
+set_option maxHeartbeats 1000000 in
 /-- `operator=(const String& other)` (`other` may be the String itself) -/
 theorem assign_translated {s : St} (h : Sane s) (v w : Nat) :
     Body.assign s v w = assign s v w := by
